@@ -526,3 +526,60 @@ Theorem log_restore_panics_iff : forall l s,
 Proof.
   intros l s. unfold log_restore. destruct (s_index s <? committed l) eqn:E; split; try discriminate; try lia; auto.
 Qed.
+
+(* ================================================================== *)
+(* restart window, entries_size bookkeeping                            *)
+(* ================================================================== *)
+(* Raft::new moves applied with applied_to_unchecked, possibly beyond committed:
+   the state stays inside RepInv with the window flag set *)
+Theorem applied_to_unchecked_window : forall rw l i,
+    RepInv rw l -> RepInv true (applied_to_unchecked l i).
+Proof.
+  intros rw l i H. apply (RepInv_set_applied true); [apply (RepInv_open_window rw); exact H|].
+  intros; discriminate.
+Qed.
+
+Definition usize_ok (u : unstable) : Prop := u_entries_size u = sum_approx (u_entries u).
+
+Lemma sum_approx_cons : forall e a, sum_approx (e :: a) = entry_approximate_size e + sum_approx a.
+Proof. reflexivity. Qed.
+
+Lemma sum_approx_app : forall a b, sum_approx (a ++ b) = sum_approx a + sum_approx b.
+Proof.
+  induction a as [|e a IH]; intros b.
+  - change (sum_approx []) with 0. cbn [app]. lia.
+  - cbn [app]. rewrite !sum_approx_cons, IH. lia.
+Qed.
+
+Theorem trunc_append_size : forall u ents u',
+    usize_ok u -> u_truncate_and_append u ents = Ok u' -> usize_ok u'.
+Proof.
+  intros u ents u' Hu H. unfold usize_ok in *. unfold u_truncate_and_append in H.
+  destruct ents as [|e0 t]; [discriminate|].
+  case_if_in H.
+  - inversion H; subst u'. cbn [u_entries u_entries_size]. rewrite sum_approx_app, ?sum_approx_cons. lia.
+  - case_if_in H.
+    + inversion H; subst u'. cbn [u_entries u_entries_size app]. rewrite ?sum_approx_cons. lia.
+    + destruct (u_must_check_outofbounds u (u_offset u) (e_index e0)); cbn [bind] in H; [|discriminate].
+      inversion H; subst u'. cbn [u_entries u_entries_size]. rewrite sum_approx_app, ?sum_approx_cons.
+      pose proof (firstn_skipn (N.to_nat (e_index e0 - u_offset u)) (u_entries u)) as Hfs.
+      assert (Hs : sum_approx (u_entries u)
+                   = sum_approx (firstn (N.to_nat (e_index e0 - u_offset u)) (u_entries u))
+                     + sum_approx (skipn (N.to_nat (e_index e0 - u_offset u)) (u_entries u))).
+      { rewrite <- sum_approx_app, Hfs. reflexivity. }
+      lia.
+Qed.
+
+Theorem usize_other_ops : forall u,
+    usize_ok (u_new (u_offset u))
+    /\ (forall s, usize_ok (u_restore u s))
+    /\ (forall i t u', u_stable_entries u i t = Ok u' -> usize_ok u')
+    /\ (forall i u', usize_ok u -> u_stable_snap u i = Ok u' -> usize_ok u').
+Proof.
+  intros u. unfold usize_ok. split; [reflexivity|]. split; [reflexivity|]. split.
+  - intros i t u' H. unfold u_stable_entries in H.
+    destruct (u_snapshot u); [discriminate|]. destruct (u_entries u); [discriminate|].
+    case_if_in H; [discriminate|]. inversion H; subst. reflexivity.
+  - intros i u' Hu H. unfold u_stable_snap in H. destruct (u_snapshot u); [|discriminate].
+    case_if_in H; [discriminate|]. inversion H; subst. exact Hu.
+Qed.
